@@ -210,3 +210,53 @@ func init() {
 		return e.invoke(st, director, []Value{outP}, nil, afterDirector)
 	})
 }
+
+// compress/gzip as an identity codec: what is written to the gzip.Writer is passed to the
+// destination unchanged; vp.Gunzip is the identity (natively the real codec is used).
+func init() {
+	gzDst := func(st *State, c *callCtx) (string, Value) {
+		p, ok := c.args[0].(PtrVal)
+		if !ok || p.Obj == 0 {
+			unsup("gzip.Writer method on %s", describe(c.args[0]))
+		}
+		k := "gzipdst" + ptrKey(p)
+		return k, st.side[k]
+	}
+	reg("compress/gzip.NewWriter", func(e *Engine, st *State, c *callCtx) bool {
+		e.res.Assumptions["compress/gzip modelled as an identity codec"]++
+		wt := c.fn.Signature.Results().At(0).Type().(*types.Pointer).Elem()
+		p := PtrVal{Obj: st.newObj(zeroValue(wt), wt)}
+		st.side["gzipdst"+ptrKey(p)] = c.args[0]
+		c.ret(st, p)
+		return true
+	})
+	reg("(*compress/gzip.Writer).Reset", func(e *Engine, st *State, c *callCtx) bool {
+		k, _ := gzDst(st, c)
+		st.side[k] = c.args[1]
+		st.side[k+"closed"] = tFalse
+		c.ret(st, nil)
+		return true
+	})
+	reg("(*compress/gzip.Writer).Write", func(e *Engine, st *State, c *callCtx) bool {
+		k, dst := gzDst(st, c)
+		if cl, ok := st.side[k+"closed"].(*Term); ok && cl.K && cl.B {
+			c.ret(st, TupleVal{KInt64(0), e.newError(st, KStr("gzip: write to closed writer"))})
+			return true
+		}
+		return e.callMethod(st, dst, "Write", []Value{c.args[1]}, c.ret)
+	})
+	reg("(*compress/gzip.Writer).Close", func(e *Engine, st *State, c *callCtx) bool {
+		k, _ := gzDst(st, c)
+		st.side[k+"closed"] = tTrue
+		c.ret(st, IfaceVal{})
+		return true
+	})
+	reg("(*compress/gzip.Writer).Flush", func(e *Engine, st *State, c *callCtx) bool {
+		c.ret(st, IfaceVal{})
+		return true
+	})
+	reg("net/http.DetectContentType", func(e *Engine, st *State, c *callCtx) bool {
+		c.ret(st, e.freshVar("detected", SStr))
+		return true
+	})
+}
